@@ -45,9 +45,23 @@ Payloads == {"kw0", "kw_num", "kw_str_ident", "kw3", "blk_empty", "blk_scalars",
              "blk_known_inside", "blk_comment", "kw_comment", "blk_unbalanced_inner_kw"}
 SkipCases(e) == {[k |-> "skip", e |-> e, nkids |-> n, at |-> a, payload |-> p] : n \in 0..2, a \in 0..2, p \in Payloads}
 
+\* C01 / C02: value classes per parameter type (the literal catalogue; the driver computes the concrete
+\* text, e.g. "max+1" of uint = 65536, and which types it fits - TLC integers are 32 bit)
+IntClasses == {"min-1", "min", "-1", "0", "max", "max+1", "hex0", "hexmax", "hexmax+1", "hexu64max", "hexover", "HEXPREFIX", "plus"}
+FloatClasses == {"0", "-0.0", "0.1", "1e10", "1e-4", "123456000000", "5e-324", "1e999", "-1e999", "hex", "dot1", "1dot", "exp+", "16777217", "0.30000000000000004"}
+StringClasses == {"empty", "ascii", "esc_quote", "dbl_quote", "esc_apos", "esc_backslash", "esc_n", "esc_r", "esc_t", "backslash_last",
+                  "nonbmp", "latin", "slashes", "apos_raw", "unknown_escape"}
+IdentClasses == {"a", "dotted", "underscore", "len1024", "len1025", "digitfirst", "brackets"}
+ValueCases ==
+    {[k |-> "value", type |-> t, cls |-> c] : t \in {"int", "uint", "long", "ulong", "uint64"}, c \in IntClasses}
+    \cup {[k |-> "value", type |-> "float", cls |-> c] : c \in FloatClasses}
+    \cup {[k |-> "value", type |-> "string", cls |-> c] : c \in StringClasses}
+    \cup {[k |-> "value", type |-> "ident", cls |-> c] : c \in IdentClasses}
+
 Init == sc = [stage |-> 0]
 Next == \/ sc.stage = 0 /\ \E e \in Tags : sc' = [stage |-> 1, e |-> e]
         \/ sc.stage = 1 /\ \E c \in CasesOf(sc.e) : sc' = [stage |-> 2, c |-> c]
+        \/ sc.stage = 0 /\ \E c \in ValueCases : sc' = [stage |-> 2, c |-> c]
         \/ sc.stage = 0 /\ \E c \in MultiCases : sc' = [stage |-> 2, c |-> [k |-> c.k, faults |-> SetToSeq(c.faults)]]
         \/ sc.stage = 0 /\ \E e \in {t \in Tags : Elem[t].form = "block" /\ Elem[t].kids # <<>>} : sc' = [stage |-> 3, e |-> e]
         \/ sc.stage = 3 /\ \E c \in {x \in SkipCases(sc.e) : x.at <= x.nkids} : sc' = [stage |-> 2, c |-> c]
